@@ -35,7 +35,7 @@ def run(ctx):
                  ("C01-R4", "an immediate kill folds the pending deferred raise before dying")]:
         ctx.rule(r, t)
     for cfg in configs(ctx.tier):
-        facts = ctx.facts(cfg)
+        facts = ctx.xfacts(cfg)
         n, model = _alloc_rules.fresh_only_after_failed_pop(ctx, facts, "C01-R1")
         ctx.floor("C01-R1", "counter bump sites", n, 2)
         r1_handles(ctx, facts, model)
@@ -78,7 +78,10 @@ def r1_handles(ctx, facts, model):
 def r2(ctx, facts, model):
     n = 0
     for b in model.bodies:
-        for i, (bb, t) in enumerate(model.revive_sites(b)):
+        rs_ = model.revive_sites(b)
+        ords = b.ordinals([bb for bb, _ in rs_])
+        for bb, t in rs_:
+            i = ords[bb]
             n += 1
             key = model.index_key(b, b.arg_origin(bb, 1))
             raises = [rbb for rbb, k in model.gen_slot_calls(b, model.raise_) if k == key]
@@ -162,7 +165,9 @@ def r3(ctx, facts, model):
             continue
         ts = trunc_sites(b, truncators)
         syncs = sync_sites(b, syncers)
-        for i, m in enumerate(muts):
+        ords = b.ordinals(muts)
+        for m in muts:
+            i = ords[m]
             n += 1
             dom = bool(ts) and (m not in b.reachable(0, stop=ts) or m in ts)
             ctx.ob("C01-R3", "%s mutation #%d truncates first" % (b.path, i), dom, b.loc(m),
@@ -180,7 +185,9 @@ def r4(ctx, facts, model):
     for b in model.bodies:
         deaths = model.death_sites(b)
         dies = model.gen_slot_calls(b, model.die)
-        for i, (bb, t) in enumerate(deaths):
+        ords = b.ordinals([bb for bb, _ in deaths])
+        for bb, t in deaths:
+            i = ords[bb]
             key = model.index_key(b, b.arg_origin(bb, 1))
             slot_deaths = [dbb for dbb, k in dies if k == key]
             if not slot_deaths:
